@@ -61,6 +61,9 @@ class Kernel(object):
         self.last_created = []
         self.spawning = None
         self.read_fault = {}      # descriptor -> errno raised by read(2)
+        self.child = None         # descriptor table of a forked child (a copy), while the harness plays the child
+        self.nother = 0
+        self.written_to = {}      # pipe id -> bytes written by the parent (a listener's stdin)
 
     def lowest(self):
         n = 0
@@ -84,13 +87,29 @@ class Kernel(object):
 
     def open_other(self):
         fd = self.lowest()
+        self.nother += 1
         self.fds[fd] = ('other', None)
         return fd
 
     def close(self, fd):
-        if fd not in self.fds:
+        tab = self.fds if self.child is None else self.child
+        if fd not in tab:
             raise OSError(errno.EBADF, 'Bad file descriptor')
-        del self.fds[fd]
+        del tab[fd]
+
+    def dup2(self, frm, to):
+        tab = self.fds if self.child is None else self.child
+        if frm not in tab:
+            raise OSError(errno.EBADF, 'Bad file descriptor')
+        tab[to] = tab[frm]
+        return to
+
+    def write(self, fd, data):
+        ent = self.fds.get(fd)
+        if ent is None or ent[0] != 'w':
+            raise OSError(errno.EBADF, 'Bad file descriptor')
+        self.written_to[ent[1]] = self.written_to.get(ent[1], b'') + bytes(data)
+        return len(data)
 
     def read(self, fd, n):
         ent = self.fds.get(fd)
@@ -145,6 +164,12 @@ class OsProxy(object):
 
     def fork(self):
         return self._h.kernel.fork()
+
+    def dup2(self, frm, to):
+        return self._h.kernel.dup2(frm, to)
+
+    def write(self, fd, data):
+        return self._h.kernel.write(fd, data)
 
     def waitpid(self, pid, flags):
         return self._h.kernel.waitpid()
@@ -812,3 +837,141 @@ def finish_job(job):
         if k == 1 and (p != 0 or pid != 1000 or ch != CH_CODE['stdout']):
             return None, None, 'PROCESS_COMMUNICATION event with wrong process/pid/channel'
     return info['logs'][0][0], comm, None
+
+
+# ----------------------------------------------------------------- the child's descriptors
+
+def childfds_job(job):
+    """What the forked child makes of its descriptors: real (FastCGI)Subprocess._prepare_child_fds() on a
+    copy of the fake kernel's descriptor table (fork semantics), after the real make_dispatchers().
+    job = (fastcgi, redirect_stderr, descriptors open at start, unrelated descriptors opened first)
+    -> failure text or None.  Descriptor 1 is the stdout pipe, 2 the stdout pipe when redirect_stderr else
+    the stderr pipe, 0 the stdin pipe (the FastCGI socket for an fcgi-program), nothing else stays open."""
+    fastcgi, redirect, nopen, nextra = job
+    from supervisor.options import ProcessConfig, FastCGIProcessConfig
+    from supervisor.process import Subprocess, FastCGISubprocess
+    seam = _SEAM
+    k = seam.kernel = Kernel(nopen)
+    opts = seam.options
+    opts.logger = _NullLogger()
+    opts.minfds = 40
+    from supervisor import loggers
+    opts.loglevel = loggers.LevelsByName.INFO
+    opts.strip_ansi = False
+    try:
+        for _ in range(nextra):
+            k.open_other()
+        klass = FastCGIProcessConfig if fastcgi else ProcessConfig
+        out = os.path.join(seam.workdir, 'cf.out')
+        err = os.path.join(seam.workdir, 'cf.err')
+        pc = klass(opts, name='fc', uid=None, command='/bin/sh', directory=None, umask=None, priority=999, autostart=False,
+                   autorestart=False, startsecs=0, startretries=3, stdout_logfile=out, stdout_capture_maxbytes=0,
+                   stdout_events_enabled=False, stdout_syslog=False, stdout_logfile_backups=0, stdout_logfile_maxbytes=0,
+                   stderr_logfile=(None if redirect else err), stderr_capture_maxbytes=0, stderr_logfile_backups=0,
+                   stderr_logfile_maxbytes=0, stderr_events_enabled=False, stderr_syslog=False, stopsignal=15,
+                   stopwaitsecs=10, stopasgroup=False, killasgroup=False, exitcodes=[0], redirect_stderr=redirect,
+                   environment=None, serverurl=None)
+        proc = (FastCGISubprocess if fastcgi else Subprocess)(pc)
+        sock = None
+        if fastcgi:
+            sock = k.open_other()
+            k.fds[sock] = ('socket', 'fcgi')
+
+            class Sock(object):
+                def fileno(self):
+                    return sock
+            proc.fcgi_sock = Sock()
+        k.last_created = []
+        k.spawning = 0
+        proc.dispatchers, proc.pipes = pc.make_dispatchers(proc)
+        stdin_pipe, stdout_pipe = k.last_created[0], k.last_created[1]
+        stderr_pipe = None if redirect else k.last_created[2]
+        k.child = dict(k.fds)          # fork
+        try:
+            proc._prepare_child_fds()
+            child = k.child
+        finally:
+            k.child = None
+        want = {0: ('socket', 'fcgi') if fastcgi else ('r', stdin_pipe), 1: ('w', stdout_pipe),
+                2: ('w', stdout_pipe) if redirect else ('w', stderr_pipe)}
+        names = {0: 'stdin', 1: 'stdout', 2: 'stderr'}
+        for fd in (0, 1, 2):
+            if child.get(fd) != want[fd]:
+                return ('after _prepare_child_fds() the child\'s descriptor %d (%s) is %r, expected %r  [%s, redirect_stderr=%s]'
+                        % (fd, names[fd], child.get(fd), want[fd], type(proc).__name__, redirect))
+        extra = sorted(set(child) - set((0, 1, 2)))
+        if extra:
+            return 'the child keeps descriptors %r open' % extra
+        proc.dispatchers = {}
+        return None
+    except Exception:
+        import traceback
+        return 'exception: ' + traceback.format_exc()[-1200:]
+
+
+# ----------------------------------------------------------------- PROCESS_LOG events as a listener sees them
+
+def poolorder_job(job):
+    """A real EventListenerPool with one real listener process, subscribed (real _subscribe()) to the event
+    types `sel` (names); a second process with stdout/stderr events enabled writes five chunks, each read at
+    once (five PROCESS_LOG events).  Every emitted event covered by `sel` must be buffered exactly once, in
+    emission order; the pool then dispatches them one at a time to its single listener (which acknowledges
+    each): what remains buffered stays in order and the payloads reach the listener's stdin in the order of
+    the log.  -> failure text or None"""
+    sel, strip = job
+    from supervisor import events as ev
+    from supervisor.states import EventListenerStates, ProcessStates
+    seam = _SEAM
+    try:
+        cfgs = [(False, 0, 0, False, False, False, None, False, True), (False, 0, 0, True, True)]
+        seam.start(cfgs, strip, 3)
+        pool = seam.sup.process_groups['g0']
+        types = [getattr(ev, n) for n in sel]
+        pool.config.pool_events = types
+        pool._subscribe()
+        lis = seam.procs[0]
+        for o in [('spawn', 0, 'ok'), ('write', 0, 'stdout', b'READY\n'), ('read', 0, 'stdout', 3000), ('spawn', 1, 'ok')]:
+            seam.op(o)
+        lis.laststart -= 5
+        lis.transition()
+        if lis.state != ProcessStates.RUNNING or lis.listener_state != EventListenerStates.READY:
+            return 'harness: the listener did not become RUNNING/READY (%r, %r)' % (lis.state, lis.listener_state)
+        chunks = [('stdout', b'c1 out\n'), ('stderr', b'c2 err\n'), ('stdout', b'c3 out\n'), ('stderr', b'c4 err\n'),
+                  ('stdout', b'c5 out\n')]
+        for chan, data in chunks:
+            seam.op(('write', 1, chan, data))
+            seam.op(('read', 1, chan, 3000))
+        emitted = [(k, p, pid, ch, d) for (k, p, pid, ch, d) in seam.events if k == 0 and p == 1]
+        if [d for (_k, _p, _pid, _ch, d) in emitted] != [d for _c, d in chunks]:
+            return 'the five reads did not give five PROCESS_LOG events in order: %r' % ([e[4] for e in emitted],)
+        cls = {1: ev.ProcessLogStdoutEvent, 2: ev.ProcessLogStderrEvent}
+        want = [d for (_k, _p, _pid, ch, d) in emitted if any(issubclass(cls[ch], t) for t in types)]
+        got = [e.data for e in pool.event_buffer if isinstance(e, ev.ProcessLogEvent)]
+        if got != want:
+            return ('a pool with events=%s buffered the PROCESS_LOG events %r, expected each covered event once, in order: %r'
+                    % (','.join(sel), got, want))
+        stdin_pipe = seam.kernel.fds[seam._disp_fd(lis, 'stdin')[0]][1]
+        for i in range(len(want)):
+            pool.dispatch()
+            rest = [e.data for e in pool.event_buffer if isinstance(e, ev.ProcessLogEvent)]
+            if rest != want[i + 1:]:
+                return ('after dispatching %d of %d buffered PROCESS_LOG events to the only listener, the buffer holds %r, '
+                        'expected %r (events=%s)' % (i + 1, len(want), rest, want[i + 1:], ','.join(sel)))
+            seam.op(('write', 0, 'stdout', b'RESULT 2\nOKREADY\n'))
+            seam.op(('read', 0, 'stdout', 3000))
+            if lis.listener_state != EventListenerStates.READY:
+                return 'harness: the listener did not return to READY'
+        sent = seam.kernel.written_to.get(stdin_pipe, b'')
+        pos = [sent.find(d) for d in want]
+        if -1 in pos or pos != sorted(pos):
+            return 'the listener received the PROCESS_LOG payloads out of the order of the log (offsets %r)' % (pos,)
+        if seam.header_errors:
+            return seam.header_errors[0]
+        for p in seam.procs:
+            p.dispatchers = {}
+        return None
+    except HarnessFailure as e:
+        return str(e)
+    except Exception:
+        import traceback
+        return 'exception: ' + traceback.format_exc()[-1500:]
